@@ -777,10 +777,17 @@ def r17_12(ctx):
     r = RuleResult("R17.12", "K4+K1", "close() ends every registered data channel, Close at most once")
     b = ctx.body("peer_connection::PeerConnectionInner::close_with_reason")
     r.scope.append(b.name)
-    closes = [bi for bi, t, p in b.calls() if p and p.endswith("DataChannel::close_channel")]
+    ending, announcing = _dc_methods(ctx)
+    closes = [bi for bi, t, p in b.calls() if p in ending]
     events = [(bi, t) for bi, t, p in b.calls() if p and p.endswith("DataChannel::send_event")
               and mir.has(b.term_operand(t["a"][1]), lambda x: x[0] == "agg" and x[2] == "Close")]
-    if not closes or not events:
+    # a DataChannel method that announces Close on the sender it takes out of the channel is once-only by construction
+    once_only = [bi for bi, t, p in b.calls() if p in announcing]
+    for bi in once_only:
+        r.ok({"site": b.where(bi), "Close": "announced by a method that takes the event sender (at most once)"})
+    if once_only and not events:
+        events = []
+    if not closes or (not events and not once_only):
         r.violate(b.name, "close:channels", b.where(0),
                   "close_with_reason does not end the registered data channels: a channel that never reached the SCTP runner (created "
                   "before SCTP started) gets no Close and its recv() waits for ever")
@@ -1041,6 +1048,46 @@ def r17_18(ctx):
     return r
 
 
+def _dc_methods(ctx):
+    """-> (ending, announcing): DataChannel methods that drop the event sender (`*tx.lock() = None`, `tx.lock().take()`),
+    and those among them that put Close on the sender they took (once-only by construction)."""
+    ending, announcing = set(), set()
+    for b in ctx.facts.bodies(prefix="transports::datachannel::DataChannel::"):
+        if "::{closure" in b.name:
+            continue
+        takes = any(p and p.endswith("Option::<T>::take") and t["a"] and mir.has_field(b.term_operand(t["a"][0]), "tx") for _bi, t, p in b.calls())
+        clears = any(mir.has(b.term_rvalue(st["rv"]), lambda x: x[0] == "agg" and x[2] == "None") and
+                     mir.has(b.term_local(st["p"]["l"]), lambda x: x[0] == "call" and x[1].endswith("::lock") and x[2] and mir.has_field(x[2][0], "tx"))
+                     for _bi, _si, st in b.assigns() if "p" in st["p"])
+        if takes or clears:
+            ending.add(b.name)
+        if takes and any(p and "mpsc" in p and p.split("::")[-1] in ("send", "try_send") and len(t["a"]) > 1 and
+                         mir.has(b.term_operand(t["a"][1]), lambda x: x[0] == "agg" and x[2] == "Close") for _bi, t, p in b.calls()):
+            announcing.add(b.name)
+    return ending, announcing
+
+
+def close_sites_end_stream(ctx):
+    """-> [(body, block, ended?)] for every send of DataChannelEvent::Close in the SCTP / peer-connection code:
+    is it followed on every path by close_channel()?"""
+    out = []
+    ending, announcing = _dc_methods(ctx)
+    for b in ctx.facts.all_bodies():
+        if "::tests::" in b.name or not ("transports::sctp::" in b.name or "peer_connection::" in b.name):
+            continue
+        sends = [bi for bi, t, p in b.calls() if p and p.endswith("DataChannel::send_event") and len(t["a"]) > 1 and
+                 mir.has(b.term_operand(t["a"][1]), lambda x: x[0] == "agg" and x[2] == "Close")]
+        by_method = [bi for bi, t, p in b.calls() if p in announcing]
+        if not sends and not by_method:
+            continue
+        ends = [bi for bi, t, p in b.calls() if p in ending]
+        for bi in sends:
+            out.append((b, bi, bool(ends) and core.always_followed_by(b, bi, ends, cut_edges=b.back_edges())))
+        for bi in by_method:
+            out.append((b, bi, True))       # the method announces on the sender it took: the stream ends with it
+    return out
+
+
 def r17_19(ctx):
     """'every open data channel observes Close exactly once, and pending ... API calls return promptly': a consumer loops on
     `dc.recv()` until it returns None, which happens when the event sender is dropped (close_channel). Both sweeps that end
@@ -1048,25 +1095,17 @@ def r17_19(ctx):
     to end the stream. Decided: in the SCTP / peer-connection code every send of DataChannelEvent::Close is followed on
     every path by close_channel()."""
     r = RuleResult("R17.19", "K4", "whoever announces Close on a data channel also ends its event stream")
-    n = 0
-    for b in ctx.facts.all_bodies():
-        if "::tests::" in b.name or not ("transports::sctp::" in b.name or "peer_connection::" in b.name):
-            continue
-        sends = [bi for bi, t, p in b.calls() if p and p.endswith("DataChannel::send_event") and len(t["a"]) > 1 and
-                 mir.has(b.term_operand(t["a"][1]), lambda x: x[0] == "agg" and x[2] == "Close")]
-        if not sends:
-            continue
-        r.scope.append(b.name)
-        ends = [bi for bi, t, p in b.calls() if p and p.endswith("DataChannel::close_channel")]
-        for bi in sends:
-            n += 1
-            if ends and core.always_followed_by(b, bi, ends, cut_edges=b.back_edges()):
-                r.ok({"site": b.where(bi), "then": "close_channel()"})
-            else:
-                r.violate(b.name, "close:stream-left-open", b.where(bi),
-                          "Close is announced here but the channel's event sender is not dropped: a `while let Some(ev) = dc.recv().await` consumer "
-                          "stays parked, and the later sweeps skip a channel that is Closed already")
-    r.need("sites announcing Close", n, 3)
+    sites = close_sites_end_stream(ctx)
+    for b, bi, ended in sites:
+        if b.name not in r.scope:
+            r.scope.append(b.name)
+        if ended:
+            r.ok({"site": b.where(bi), "then": "close_channel()"})
+        else:
+            r.violate(b.name, "close:stream-left-open", b.where(bi),
+                      "Close is announced here but the channel's event sender is not dropped: a `while let Some(ev) = dc.recv().await` consumer "
+                      "stays parked, and the later sweeps skip a channel that is Closed already")
+    r.need("sites announcing Close", len(sites), 3)
     return r
 
 
